@@ -249,6 +249,14 @@ def curated_classic():
     add(('grp-on-deeper-line', cat(a, nest(cat(LINE, a)), grp(cat(a, LINE, a)))))
     add(('grp-on-deeper-line-2', cat(nest(cat(a, HARD, a), off=('c', 6)), S(' '), grp(cat(a, LINE, a, LINE, a)))))
     add(('grp-on-deeper-line-nested', nest(cat(a, nest(cat(HARD, a)), grp(cat(LINE, a, LINE, a))))))
+    # the group's only child is a nest (ribbon origin = the group's indentation, not the nest's)
+    add(('grp-of-nest', grp(nest(cat(a, LINE, a, LINE, a)))))
+    add(('grp-of-nest-in-nest', nest(cat(a, LINE, grp(nest(cat(a, LINE, a)))))))
+    add(('grp-of-grp-nest', grp(grp(nest(cat(a, SOFT, a))))))
+    # a group that ends the document (nothing follows its last text)
+    add(('grp-last-text', cat(a, LINE, grp(cat(a, LINE, a)))))
+    add(('grp-in-align-only', grp(align(cat(a, LINE, a)))))
+    add(('grp-in-hang-only', grp(hang(cat(a, LINE, a, SOFT, a)))))
     add(('grp-on-shallower-line', nest(cat(a, nest(cat(HARD, a), off=('c', -2)), grp(cat(a, LINE, a))), off=('c', 4))))
     add(('grp-in-align', cat(a, align(cat(grp(cat(a, LINE, a)), HARD, a)))))
     return out + [(n, number(s)) for n, s in extra]
